@@ -144,13 +144,38 @@ pub fn gen_ip4(c: &mut Choices) -> [u8; 4] {
 
 pub fn gen_ip6(c: &mut Choices) -> [u8; 16] {
     let mut a = [0u8; 16];
-    match c.below(4) {
+    match c.below(7) {
         0 => {}
         1 => a[15] = 1,
         2 => {
             a[0] = 0xfe;
             a[1] = 0x80;
             a[15] = c.u8();
+        }
+        3 => {
+            // IPv4-mapped ::ffff:a.b.c.d
+            a[10] = 0xff;
+            a[11] = 0xff;
+            a[12..].copy_from_slice(&gen_ip4(c));
+        }
+        4 => {
+            // other embeddings of an IPv4 address: IPv4-compatible, NAT64, 6to4
+            let v4 = gen_ip4(c);
+            match c.below(3) {
+                0 => a[12..].copy_from_slice(&v4),
+                1 => {
+                    a[0] = 0x00;
+                    a[1] = 0x64;
+                    a[2] = 0xff;
+                    a[3] = 0x9b;
+                    a[12..].copy_from_slice(&v4);
+                }
+                _ => {
+                    a[0] = 0x20;
+                    a[1] = 0x02;
+                    a[2..6].copy_from_slice(&v4);
+                }
+            }
         }
         _ => {
             for x in a.iter_mut() {
